@@ -439,9 +439,14 @@ class _OutKeysSelect:
                 raise RuntimeError(
                     f"Selecting out-keys failed. Original out_keys: {module._out_keys}, selected: {module.out_keys}."
                 )
-        return tensordict_out.select(
-            *in_keys, *out_keys, inplace=True, strict=tensordict_out is tensordict_in
-        )
+        # drop the out-keys that were not selected; every other entry (the in_keys, the
+        # selected out_keys and whatever else the tensordict holds) must stay
+        dropped = [
+            key
+            for key in module._out_keys
+            if key not in out_keys and key not in in_keys and key != "_"
+        ]
+        return tensordict_out.exclude(*dropped, inplace=True)
 
     def _detect_dispatch(self, tensordict_in, kwargs, in_keys):  # noqa: F811
         if isinstance(tensordict_in, TensorDictBase) and all(
